@@ -144,3 +144,21 @@ Example ex_globstar_surrogate : globstarToEscapedRegexp [237;160;128;46;106;115]
 Proof. vm_compute. reflexivity. Qed.
 Example ex_regexp_sites : existsb (fun s => negb (re_must s) && negb (re_const s)) regexp_sites = true.
 Proof. vm_compute. reflexivity. Qed.
+
+From V Require Import C16.JsLex.
+(* 'a\<CR><LF>b' : a line continuation inside a string literal: token 1, end 7, text of 5 bytes *)
+Example ex_js_string : run_jsstring [39;97;92;13;10;98;39] = Ok (Some (1, 7, 5)).
+Proof. vm_compute. reflexivity. Qed.
+(* `a${ : a template head: the text slice excludes the two-byte suffix *)
+Example ex_js_template_head : run_jsstring [96;97;36;123;120] = Ok (Some (3, 4, 1)).
+Proof. vm_compute. reflexivity. Qed.
+(* an unterminated string ending in a backslash is the typed syntax error *)
+Example ex_js_string_unterminated : run_jsstring [34;97;92] = Ok None.
+Proof. vm_compute. reflexivity. Qed.
+(* /[/]\//gi : a slash inside a class, an escaped slash, two flags *)
+Example ex_js_regexp : exists l, run_regexp idc_sample [47;91;47;93;92;47;47;103;105] = Ok (Some l) /\ cur l = 9.
+Proof. eexists. vm_compute. split; reflexivity. Qed.
+Example ex_js_regexp_dupflag : exists l, run_regexp idc_sample [47;97;47;103;103] = Ok (Some l).
+Proof. eexists. vm_compute. reflexivity. Qed.
+Example ex_idc_sample_eof : idc_sample eof = false.
+Proof. reflexivity. Qed.
